@@ -1,4 +1,5 @@
 import RTV.Model.Py
+import RTV.Gen.Factory
 /-!
 L9 `Factory` — mirrors
   recognizers_text/culture.py     `Culture.map_to_nearest_language`
@@ -44,6 +45,13 @@ def isCandidate (repaired : Bool) (p s : Str) : Bool :=
 
 def candidates (repaired : Bool) (S : List Str) (p : Str) : List Str := S.filter (isCandidate repaired p)
 
+/-- The `if possible_cultures:` block: no candidate leaves the code as it was, one candidate replaces it, several
+candidates go through the `'*'` loop. -/
+def choose (cur : Str) : List Str → Str
+  | [] => cur
+  | [x] => x
+  | poss => pickStar cur poss
+
 /-- `Culture.map_to_nearest_language(culture_code)`; `none` is Python's `None`. -/
 def mapToNearest (repaired : Bool) (E : PyStr) (S : List Str) : Option Str → Option Str
   | none => none
@@ -53,10 +61,7 @@ def mapToNearest (repaired : Bool) (E : PyStr) (S : List Str) : Option Str → O
       let c := E.lower c
       if c ∈ S then some c
       else
-        match candidates repaired S (langPrefix E c) with
-        | [] => some c
-        | [x] => some x
-        | poss => some (pickStar c poss)
+        some (choose c (candidates repaired S (langPrefix E c)))
 
 /-! ### ModelFactory -/
 
@@ -105,6 +110,14 @@ def dictSet (k : Key) (v : Obj) : List (Key × Obj) → List (Key × Obj)
 inductive Err
   | valueError
 deriving DecidableEq, Repr
+
+instance exceptDecEq {ε α} [DecidableEq ε] [DecidableEq α] : DecidableEq (Except ε α) := fun a b =>
+  match a, b with
+  | .ok x, .ok y => if h : x = y then isTrue (by rw [h]) else isFalse (fun h' => by injection h' with h'; exact h h')
+  | .error x, .error y =>
+    if h : x = y then isTrue (by rw [h]) else isFalse (fun h' => by injection h' with h'; exact h h')
+  | .ok _, .error _ => isFalse (fun h => by cases h)
+  | .error _, .ok _ => isFalse (fun h => by cases h)
 
 structure Cfg where
   py : PyStr
@@ -257,6 +270,10 @@ def route (cfg : Cfg) (kind : Nat) (t : Str) (c : Option Str) (fb : Bool) (o : I
   | some cs => if (t, cs) ∈ cfg.regs kind then .ok ⟨kind, t, cs, o⟩ else viaFallback
   | none => viaFallback
 
+def single? : List Str → Option Str
+  | [x] => some x
+  | _ => none
+
 /-- The property's own reading of a culture string: the supported culture it denotes, or `none` = "any other
 code". Language tags are compared for equality. -/
 def specCulture (E : PyStr) (S : List Str) : Option Str → Option Str
@@ -267,8 +284,28 @@ def specCulture (E : PyStr) (S : List Str) : Option Str → Option Str
       let c := E.lower c
       if c ∈ S then some c
       else
-        match S.filter (fun s => beforeDash s == langPrefix E c) with
-        | [x] => some x
-        | _ => none
+        single? (S.filter (fun s => beforeDash s == langPrefix E c))
+
+/-! ### Instances -/
+
+def asciiLowerCp (c : Nat) : Nat := if 65 ≤ c ∧ c ≤ 90 then c + 32 else c
+
+/-- `str.lower` / `str.isspace` restricted to ASCII (what they do on ASCII-only strings). Used for the concrete
+witnesses; the driver uses the full exported Unicode tables. -/
+def asciiPy : PyStr where
+  lower s := s.map asciiLowerCp
+  isSpace c := c == 32 || (9 ≤ c && c ≤ 13) || (28 ≤ c && c ≤ 31)
+
+def zhCn : Str := [122, 104, 45, 99, 110]
+
+/-- The configuration of the working tree: every table is the regenerated one of `RTV/Gen/Factory.lean`. -/
+def genCfg (py : PyStr) (repaired : Bool) : Cfg where
+  py := py
+  supported := RTV.Gen.supportedCultures
+  fallback := RTV.Gen.fallbackCulture
+  chinese := zhCn
+  regs k := RTV.Gen.registrations.getD k []
+  optRange k := RTV.Gen.optionRanges.getD k (0, -1)
+  repaired := repaired
 
 end RTV.Factory
